@@ -1,4 +1,4 @@
-from .checks import deps, pipeline, version, selfhost, container, compilecheck, imports, pattern, grammar, merge
+from .checks import deps, pipeline, version, selfhost, container, compilecheck, imports, pattern, grammar, merge, determinism
 
 CHECKS = {
     "C01": lambda tier: compilecheck.run("C01", tier),
@@ -9,6 +9,7 @@ CHECKS = {
     "C05": lambda tier: deps.run_property("C05", tier),
     "C06": lambda tier: deps.run_property("C06", tier),
     "C07": lambda tier: deps.run_property("C07", tier),
+    "C08": lambda tier: determinism.run_c08(tier),
     "C09": lambda tier: merge.run_c09(tier),
     "C10": lambda tier: pipeline.run_c10(tier),
     "C11": lambda tier: grammar.run_c11(tier),
